@@ -3,6 +3,9 @@
    Model = `JrsVerif.Format` (format.rs as coded, after the `fix:` commits), reference =
    `JrsVerif.FormatSpec` (Python/Jsonnet %-formatting). -/
 import JrsVerif.Proofs.Format
+import JrsVerif.Proofs.FormatParse
+import JrsVerif.Proofs.FormatFloat
+import JrsVerif.Proofs.FormatRound
 
 set_option linter.unusedSimpArgs false
 
@@ -29,11 +32,12 @@ theorem flag_table_spec :
 /-! ### integer conversions -/
 
 /-- C12 `int_conv_spec`: for every flag subset, width, precision (given, absent, or taken from `*`),
-    conversion d/i/u/o/x/X and every number whose integer part is below 2^63, `format_code` never
-    panics and produces exactly the reference text (sign, `#` prefix, precision zeros, `0`/`-`/space
-    filling to `width` characters). -/
+    conversion d/i/u/o/x/X and every finite double (integer part below 2^1024 — no `i64` bound any
+    more: `integer_digits` expands the number exactly), `format_code` never panics and produces
+    exactly the reference text (sign, `#` prefix, precision zeros, `0`/`-`/space filling to `width`
+    characters). -/
 theorem int_conv_spec (n : Num) (d : List Char) (c : Code) (w : Nat) (p : Option Nat)
-    (hc : c.conv = .dec ∨ c.conv = .oct ∨ c.conv = .hex) (hn : n.whole ≤ I64_MAX) :
+    (hc : c.conv = .dec ∨ c.conv = .oct ∨ c.conv = .hex) (hn : n.whole < DBL_BOUND) :
     formatCode (.num n d) c w p =
       .ok (FormatSpec.intConv c.flags w p c.conv c.caps (FormatSpec.truncInt n)) :=
   formatCode_int n d c w p hc hn
@@ -43,33 +47,37 @@ example :
     formatCode (.num { neg := true, whole := 255, fracNZ := true } [])
       { mkey := [], flags := { zero := true, sign := true }, width := .fixed 8, prec := some (.fixed 3),
         conv := .hex, caps := false } 8 (some 3) = .ok "-00000ff".toList := by
-  rw [int_conv_spec _ _ _ _ _ (Or.inr (Or.inr rfl)) (by decide)]
+  rw [int_conv_spec _ _ _ _ _ (Or.inr (Or.inr rfl)) (by unfold DBL_BOUND; exact Nat.lt_of_lt_of_le (by decide : 255 < 2 ^ 8) (Nat.pow_le_pow_right (by decide) (by decide)))]
   exact congrArg Except.ok (by decide)
 
-/-- the full statement without the `i64` bound -/
+/-- the full statement: every finite double, no bound at the `i64` range -/
 def IntConvStmt : Prop :=
   ∀ (n : Num) (d : List Char) (c : Code) (w : Nat) (p : Option Nat),
-    (c.conv = .dec ∨ c.conv = .oct ∨ c.conv = .hex) →
+    (c.conv = .dec ∨ c.conv = .oct ∨ c.conv = .hex) → n.whole < 2 ^ 1024 →
     formatCode (.num n d) c w p =
       .ok (FormatSpec.intConv c.flags w p c.conv c.caps (FormatSpec.truncInt n))
 
-/-- KNOWN FINDING (c12_render_integer_saturates_at_i64): `"%d" % 9223372036854775808` prints
-    9223372036854775807 — `iv.floor() as i64` saturates. -/
-theorem int_conv_counterexample : ¬ IntConvStmt := by
-  intro h
-  have := h { neg := false, whole := 9223372036854775808 } []
-    { mkey := [], flags := {}, width := .fixed 0, prec := none, conv := .dec, caps := false } 0 none
-    (Or.inl rfl)
-  have h2 := congrArg (fun r => match r with | Except.ok s => s.getLast? | _ => none) this
-  revert h2
-  decide
+/-- formerly the finding `c12_render_integer_saturates_at_i64` (kept as a counterexample while
+    `render_integer` did `iv.floor() as i64`); repaired, the full statement is a theorem -/
+theorem int_conv_full : IntConvStmt :=
+  fun n d c w p hc hn => formatCode_int n d c w p hc hn
 
-/-- the statement holds exactly outside the classifier (`|v| < 2^63`) -/
+/-- the former witness: `"%d" % 9223372036854775808` prints all its digits -/
+example :
+    formatCode (.num { neg := false, whole := 9223372036854775808 } [])
+      { mkey := [], flags := {}, width := .fixed 0, prec := none, conv := .dec, caps := false } 0 none
+      = .ok "9223372036854775808".toList := by
+  rw [int_conv_full _ _ _ _ _ (Or.inl rfl)
+    (Nat.lt_of_lt_of_le (by decide : 9223372036854775808 < 2 ^ 64) (Nat.pow_le_pow_right (by decide) (by decide)))]
+  exact congrArg Except.ok (by decide)
+
+/-- the statement that was provable before the repair (`|v| < 2^63`) -/
 theorem int_conv_partial (n : Num) (d : List Char) (c : Code) (w : Nat) (p : Option Nat)
     (hc : c.conv = .dec ∨ c.conv = .oct ∨ c.conv = .hex) (hn : ¬ n.whole ≥ 2 ^ 63) :
     formatCode (.num n d) c w p =
       .ok (FormatSpec.intConv c.flags w p c.conv c.caps (FormatSpec.truncInt n)) :=
-  formatCode_int n d c w p hc (by unfold I64_MAX; omega)
+  formatCode_int n d c w p hc
+    (Nat.lt_of_lt_of_le (by omega : n.whole < 2 ^ 63) (Nat.pow_le_pow_right (by decide) (by decide)))
 
 /-! ### padding of text conversions -/
 
@@ -78,7 +86,8 @@ theorem int_conv_partial (n : Num) (d : List Char) (c : Code) (w : Nat) (p : Opt
 theorem pad_spec (v : Val) (c : Code) (w : Nat) (p : Option Nat) (hc : c.conv = .str) :
     formatCode v c w p = .ok (FormatSpec.padText c.flags w v.disp) := by
   unfold formatCode formatBody FormatSpec.padText FormatSpec.spaces
-  simp only [hc, bind, Except.bind, pure, Except.pure]
+  simp only [hc, bind, Except.bind, pure, Except.pure, reduceCtorEq, decide_false, Bool.or_self,
+    Bool.and_false, Bool.false_eq_true, if_false]
 
 /-- the width is measured in characters: "é" is one character -/
 example :
@@ -91,7 +100,8 @@ example :
 theorem percent_text (v : Val) (c : Code) (w : Nat) (p : Option Nat) (hc : c.conv = .pct) :
     formatCode v c w p = .ok (FormatSpec.padText c.flags w ['%']) := by
   unfold formatCode formatBody FormatSpec.padText FormatSpec.spaces
-  simp only [hc, bind, Except.bind, pure, Except.pure]
+  simp only [hc, bind, Except.bind, pure, Except.pure, reduceCtorEq, decide_false, Bool.or_self,
+    Bool.and_false, Bool.false_eq_true, if_false]
 
 /-! ### `%c` -/
 
@@ -100,51 +110,113 @@ def CharConvStmt : Prop :=
   ∀ (v : Val) (c : Code) (w : Nat) (p : Option Nat), c.conv = .chr →
     formatCode v c w p = FormatSpec.conv c w p v
 
-/-- KNOWN FINDING (c12_char_of_negative_number_is_nul): `"%c" % -3` is "\u0000", not an error -/
-theorem char_conv_counterexample : ¬ CharConvStmt := by
-  intro h
-  have := h (.num { neg := true, whole := 3 } [])
-    { mkey := [], flags := {}, width := .fixed 0, prec := none, conv := .chr, caps := false } 0 none rfl
-  have h2 := congrArg (fun r => match r with | Except.ok _ => true | _ => false) this
-  revert h2
-  decide
+/-- C12 `c_conv_spec`: `%c` is the reference for every value: the character with that code point
+    (fractions truncated), a one-character string as is, padded to `width` characters; negative
+    numbers, surrogates, code points above 0x10FFFF are invalid-code-point errors, longer strings
+    and other types are type errors.  (Formerly the finding `c12_char_of_negative_number_is_nul`:
+    `"%c" % -3` was "\u0000"; repaired.) -/
+theorem char_conv_spec : CharConvStmt := by
+  intro v c w p hc
+  unfold formatCode formatBody FormatSpec.conv FormatSpec.padText FormatSpec.spaces
+  simp only [hc, reduceCtorEq, decide_false, Bool.or_self, Bool.and_false, Bool.false_eq_true, if_false]
+  cases v with
+  | num n d =>
+    simp only []
+    by_cases hv : (n.neg && decide (n.whole ≥ 1)) = true
+    · have htr : (FormatSpec.truncInt n < 0) := by
+        have := truncInt_neg n; rw [hv] at this; simpa using this
+      simp only [hv, htr, if_true]
+      rfl
+    · simp only [Bool.not_eq_true] at hv
+      have htr : (FormatSpec.truncInt n < 0) = False := by
+        have := truncInt_neg n; rw [hv] at this; simpa using this
+      simp only [hv, htr, if_false, Bool.false_eq_true]
+      by_cases hneg : n.neg = true
+      · have hw : n.whole = 0 := by
+          simp only [hneg, Bool.true_and, decide_eq_false_iff_not] at hv; omega
+        simp only [hneg, if_true, hw]
+        rfl
+      · simp only [hneg, Bool.false_eq_true, if_false]
+        by_cases hbig : n.whole ≤ 4294967295
+        · rw [Nat.min_eq_left hbig]
+          have hvs : validScalar n.whole = FormatSpec.isScalar n.whole := rfl
+          rw [hvs]; cases FormatSpec.isScalar n.whole <;> rfl
+        · have h1 : min n.whole 4294967295 = 4294967295 := Nat.min_eq_right (by omega)
+          have h2 : FormatSpec.isScalar n.whole = false := by
+            unfold FormatSpec.isScalar
+            simp only [Bool.or_eq_false_iff, decide_eq_false_iff_not, Bool.and_eq_false_imp, decide_eq_true_eq]
+            omega
+          rw [h1, h2]; rfl
+  | str s => by_cases h : s.length = 1 <;> simp [h, bind, Except.bind, pure, Except.pure]
+  | obj fs d => rfl
+  | other d => rfl
+
+/-- the former witness: `"%c" % -3` is an invalid-code-point error -/
+example :
+    formatCode (.num { neg := true, whole := 3 } [])
+      { mkey := [], flags := {}, width := .fixed 0, prec := none, conv := .chr, caps := false } 0 none
+      = .error .codepoint := by
+  rw [char_conv_spec _ _ _ _ rfl]; rfl
 
 def negativeNumber : Val → Bool
   | .num n _ => n.neg && decide (n.whole ≥ 1)
   | _ => false
 
-/-- C12 `c_conv_spec`: outside the classifier (a number ≤ -1), `%c` is the reference: the character
-    with that code point (fractions truncated), a one-character string as is, padded to `width`
-    characters; surrogates, code points above 0x10FFFF, longer strings and other types are errors -/
+/-- the statement that was provable before the repair (value not a number ≤ -1) -/
 theorem char_conv_partial (v : Val) (c : Code) (w : Nat) (p : Option Nat) (hc : c.conv = .chr)
-    (hv : negativeNumber v = false) : formatCode v c w p = FormatSpec.conv c w p v := by
-  unfold formatCode formatBody FormatSpec.conv FormatSpec.padText FormatSpec.spaces
-  simp only [hc]
-  cases v with
-  | num n d =>
-    simp only [negativeNumber] at hv
-    have htr : (FormatSpec.truncInt n < 0) = False := by
-      have := truncInt_neg n; rw [hv] at this; simpa using this
-    simp only [htr, if_false]
-    by_cases hneg : n.neg = true
-    · have hw : n.whole = 0 := by
-        simp only [hneg, Bool.true_and, decide_eq_false_iff_not] at hv; omega
-      simp only [hneg, if_true, hw]
-      rfl
-    · simp only [hneg, Bool.false_eq_true, if_false]
-      by_cases hbig : n.whole ≤ 4294967295
-      · rw [Nat.min_eq_left hbig]
-        have hvs : validScalar n.whole = FormatSpec.isScalar n.whole := rfl
-        rw [hvs]; cases FormatSpec.isScalar n.whole <;> rfl
-      · have h1 : min n.whole 4294967295 = 4294967295 := Nat.min_eq_right (by omega)
-        have h2 : FormatSpec.isScalar n.whole = false := by
-          unfold FormatSpec.isScalar
-          simp only [Bool.or_eq_false_iff, decide_eq_false_iff_not, Bool.and_eq_false_imp, decide_eq_true_eq]
-          omega
-        rw [h1, h2]; rfl
-  | str s => by_cases h : s.length = 1 <;> simp [h, bind, Except.bind, pure, Except.pure]
-  | obj fs d => rfl
-  | other d => rfl
+    (hv : negativeNumber v = false) : formatCode v c w p = FormatSpec.conv c w p v :=
+  char_conv_spec v c w p hc
+
+/-! ### float conversions -/
+
+/-- C12 `float_conv_spec`: for every flag subset, width, precision and conversion e/E/f/F/g/G,
+    everything `format_code` does AFTER digit generation — sign, `#` (forced point, kept zeros),
+    zero padding computed inside `render_float` (e/f) or applied afterwards (`%g`), width, trailing
+    zero stripping of `%g`, the two-digit signed exponent, the choice between fixed and exponent
+    form with the extracted threshold 1e-4 — equals the reference text, for ALL digit data the
+    pipeline can hand over (`OracleOK`: the parts are doubles, the fraction is a remainder modulo
+    10^precision).  It never panics; a precision above 308 is `tooLarge`; a missing oracle entry is
+    reported as such on both sides. -/
+theorem float_conv_spec (n : Num) (disp : List Char) (c : Code) (w : Nat) (p : Option Nat)
+    (hc : c.conv = .sci ∨ c.conv = .flt ∨ c.conv = .shorter) (ho : OracleOK n) :
+    formatCode (.num n disp) c w p = FormatSpec.conv c w p (.num n disp) :=
+  formatCode_float n disp c w p hc ho
+
+/-- non-vacuity: `"%+09.2f" % -3.14159` with the digit data (3, 14) -/
+example :
+    formatCode (.num { neg := true, whole := 3, fracNZ := true, fix := [(2, { whole := 3, frac := 14 })] } [])
+      { mkey := [], flags := { zero := true, sign := true }, width := .fixed 9, prec := some (.fixed 2),
+        conv := .flt, caps := false } 9 (some 2) = .ok "-00003.14".toList := by
+  rw [float_conv_spec _ _ _ _ _ (Or.inr (Or.inl rfl))]
+  · exact congrArg Except.ok (by decide)
+  · refine ⟨?_, ?_, ?_⟩
+    · intro q d h
+      have hq : q = 2 ∧ d = { whole := 3, frac := 14 } := by
+        simp only [List.lookup] at h
+        split at h
+        · rename_i hb; simp at h; exact ⟨by simpa using hb, h.symm⟩
+        · cases h
+      obtain ⟨rfl, rfl⟩ := hq
+      refine ⟨?_, ?_, by decide⟩ <;>
+        exact Nat.lt_of_lt_of_le (by decide : _ < 2 ^ 8) (Nat.pow_le_pow_right (by decide) (by decide))
+    · intro q d h; cases h
+    · exact Nat.lt_of_lt_of_le (by decide : _ < 2 ^ 8) (Nat.pow_le_pow_right (by decide) (by decide))
+
+/-- formerly the finding `c12_float_precision_65535_overflows_u16` (`"%.*f" % [65535, 3]`
+    panicked in `dot_size + precision`): a float conversion with a precision above 308 is the
+    error "field width or precision is too large" for every value, flag set and width -/
+theorem float_precision_limit (v : Val) (c : Code) (w q : Nat)
+    (hc : c.conv = .sci ∨ c.conv = .flt ∨ c.conv = .shorter) (hq : q > 308) :
+    formatCode v c w (some q) = .error .tooLarge ∧ FormatSpec.conv c w (some q) v = .error .tooLarge := by
+  have hq' : (decide (q > 308)) = true := by simpa using hq
+  constructor
+  · unfold formatCode formatBody
+    delta FMT_MAX_FPPREC
+    rcases hc with h | h | h <;> simp [h, hq', bind, Except.bind]
+  · unfold FormatSpec.conv
+    delta FormatSpec.maxFloatPrec
+    rcases hc with h | h | h <;>
+      simp [h, hq, bind, Except.bind, throw, throwThe, MonadExceptOf.throw]
 
 /-! ### value consumption -/
 
@@ -323,6 +395,41 @@ theorem conversion_char_spec (s : List Char) :
         | some v => .ok (v, r)
         | none => .error .unknownConv :=
   parseConv_spec s
+
+/-- C12 `parse_spec`: the model of `parse_codes` (loops with explicit end-of-input tests, checked
+    `u16` accumulation, table lookups) computes, for EVERY format string, exactly what the
+    reference grammar computes — the same elements on success and the same error (truncated code,
+    unrecognised conversion, width/precision above 65535) otherwise. -/
+theorem parse_spec (s : List Char) : parseCodes s = FormatSpec.parseFmt s :=
+  parseCodesF_eq _ s
+
+/-- one conversion specifier: `parse_code` = the reference's specifier grammar on every text -/
+theorem parse_code_spec (s : List Char) : parseCode s = FormatSpec.parseSpec s :=
+  parseCode_eq s
+
+/-- C12 `parse_roundtrip`: rendering a list of elements (literal runs without `%`, never empty,
+    never adjacent; codes whose key has no `)`, whose numbers fit `u16` and whose `caps` bit goes
+    with a conversion that has an upper-case letter) as a format string and parsing that string
+    with the model of `parse_codes` gives exactly the elements back: every field of every code —
+    mapping key, each flag, width, precision, `*`, conversion, caps — survives. -/
+theorem parse_roundtrip (es : List Elem) (h : ElemsWF es) : parseCodes (render es) = .ok es :=
+  parseCodes_render es h
+
+/-- one specifier, whatever text follows it -/
+theorem parse_code_roundtrip (c : Code) (h : CodeWF c) (rest : List Char) :
+    parseCode (renderCode c ++ rest) = .ok (c, rest) := by
+  rw [parseCode_eq]; exact parseSpec_render c h rest
+
+/-- non-vacuity: `a=%(k)#05.3X|` is the rendering of a well-formed element list -/
+example :
+    let c : Code := { mkey := ['k'], flags := { alt := true, zero := true }, width := .fixed 5,
+                      prec := some (.fixed 3), conv := .hex, caps := true }
+    render [.lit "a=".toList, .code c, .lit ['|']] = "a=%(k)#05.3X|".toList ∧
+      ElemsWF [.lit "a=".toList, .code c, .lit ['|']] := by
+  refine ⟨by decide, ⟨by decide, by decide, trivial, ⟨⟨by decide, ?_, ?_, fun _ => Or.inl rfl⟩,
+    ⟨by decide, by decide, trivial, trivial⟩⟩⟩⟩
+  · intro n h; injection h with h; omega
+  · intro n h; injection h with h; injection h with h; omega
 
 /-- C12 (errors rather than crashes): parsing any format string either succeeds or reports one of
     the three format errors — truncated code, unrecognised conversion, width/precision above
